@@ -297,6 +297,17 @@ fn sess_foreign(g: &mut Gen, n_ops: usize) {
         }
         if g.rng.chance(1, 3) {
             let to = g.rng.below(2) as usize;
+            // often with something unacknowledged at the victim, so that a foreign ack would matter
+            if g.rng.chance(1, 2) && g.w.eps[to].kind() == "Online" {
+                let data = g.payload(&[1, 2, 3, 40]);
+                send(g, to, true, &data);
+                if g.rng.chance(1, 2) {
+                    g.line(&format!("{} flush", Gen::ep(to)));
+                }
+            }
+            if !alive(g) {
+                break;
+            }
             let f = foreign(g, to);
             g.feed(to, &f);
         } else {
